@@ -107,6 +107,10 @@ def gen_cases(tier, seed):
                     for seasonal, sp in ((None, 1), ("add", 3)):
                         yield dict(kind="ets", n=n, fh=fh, error=error, trend=trend,
                                    seasonal=seasonal, sp=sp, start=0, fam=seed % 2)
+            # further documented options of the adapter that change the fitted model
+            for opt in ("bounds", "damped", "heuristic", "known"):
+                yield dict(kind="ets", n=n, fh=fh, error="add", trend="add", seasonal=None, sp=1,
+                           start=0, fam=seed % 2, opt=opt)
             for sp, des in ((1, True), (3, True), (3, False), (2, True)):
                 yield dict(kind="theta", n=n, fh=fh, sp=sp, des=des, start=0, fam=seed % 2)
 
@@ -309,10 +313,19 @@ def _sm(case, res):
         from statsmodels.tsa.exponential_smoothing.ets import ETSModel
         from sktime.forecasting.ets import AutoETS
 
+        def mk_extra():  # fresh objects for each side (statsmodels writes into the bounds dict)
+            return {"bounds": dict(bounds={"smoothing_level": (0.7, 0.9)}),
+                    "damped": dict(damped_trend=True),
+                    "heuristic": dict(initialization_method="heuristic"),
+                    "known": dict(initialization_method="known", initial_level=21.0,
+                                  initial_trend=0.5)}.get(case.get("opt"), {})
+
+        extra = mk_extra()
         f = AutoETS(error=case["error"], trend=case["trend"], seasonal=case["seasonal"],
-                    sp=case["sp"], auto=False)
+                    sp=case["sp"], auto=False, **extra)
         ref = call(lambda: ETSModel(y.copy(), error=case["error"], trend=case["trend"],
-                                    seasonal=case["seasonal"], seasonal_periods=case["sp"])
+                                    seasonal=case["seasonal"], seasonal_periods=case["sp"],
+                                    **mk_extra())
                    .fit(disp=False, maxiter=1000).predict(n, n + H - 1))
     else:
         from statsmodels.tsa.holtwinters import ExponentialSmoothing as SM
